@@ -47,6 +47,18 @@ type Outcome struct {
 	Panics      int              `json:"panics,omitempty"`
 	PanicSample string           `json:"panic_sample,omitempty"`
 	Notes       map[string]string `json:"-"`
+	// Tags name situations the run reached ("kind:detail"); the driver counts
+	// the distinct tags per kind over the whole batch (interleavings, (entry
+	// point, fault) pairs, ...).
+	Tags map[string]bool `json:"-"`
+}
+
+// Tag records that the run reached a situation.
+func (o *Outcome) Tag(kind, detail string) {
+	if o.Tags == nil {
+		o.Tags = map[string]bool{}
+	}
+	o.Tags[kind+":"+detail] = true
 }
 
 func NewOutcome() *Outcome {
@@ -123,6 +135,7 @@ type WorkerResult struct {
 	Infra       []string          `json:"infra,omitempty"`
 	WallS       float64           `json:"wall_s"`
 	DoubleRuns  int               `json:"double_runs"`
+	Tags        []string          `json:"tags,omitempty"`
 	Replayed    *ReplayResult     `json:"replayed,omitempty"`
 }
 
@@ -256,6 +269,7 @@ func WorkerMain(t *testing.T, w World) {
 	replayDir := os.Getenv("SIM_REPLAY_DIR")
 	seen := map[string]int{} // class -> index in res.Violations
 	nt := map[string]bool{}
+	tags := map[string]bool{}
 
 	for i := res.From; i < res.To; i++ {
 		if budget > 0 && time.Since(start) > budget {
@@ -298,6 +312,9 @@ func WorkerMain(t *testing.T, w World) {
 		}
 		if o.NonTrivial {
 			nt[fp[:16]] = true
+		}
+		for tg := range o.Tags {
+			tags[tg] = true
 		}
 		if len(res.Samples) < 3 && (o.NonTrivial || i == res.From) {
 			res.Samples = append(res.Samples, s)
@@ -342,5 +359,8 @@ func WorkerMain(t *testing.T, w World) {
 	}
 	for k := range nt {
 		res.NonTrivial = append(res.NonTrivial, k)
+	}
+	for k := range tags {
+		res.Tags = append(res.Tags, k)
 	}
 }
